@@ -108,7 +108,9 @@ class Script:
         return cid
 
     def start(self, cpl=None):
-        return self.add("start %s %d %s" % (self.cfgid, CPL if cpl is None else cpl, hexs(CFG_PATH)))
+        if cpl is None:
+            cpl = getattr(self, "cpl", CPL)
+        return self.add("start %s %d %s" % (self.cfgid, cpl, hexs(CFG_PATH)))
 
     def put(self, path, content=""):
         return self.add("put %s %s" % (hexs(path), hexs(content)))
@@ -470,10 +472,11 @@ def gen_burst_case(rng, deb=None):
     """C02: bursts of writes to several files, no reload; dumps around every timeout pass"""
     deb = rng.choice([0, 1, 2, 3]) if deb is None else deb
     s = Script()
-    setup_world(s, base_cfg(deb=deb))
+    # a project root below a history directory: the deeper (project) rule decides, its files are ordinary files
+    setup_world(s, base_cfg(deb=deb, history=[WATCH + "/hist.log", WATCH + "/hd"], project_roots=[WATCH + "/proj", WATCH + "/hd/proj2"]))
     s.start()
     s.exec(3, X + "/vim")
-    files = [WATCH + "/inc/a.txt", WATCH + "/inc/b", WATCH + "/d/c.tar.gz", WATCH + "/n", WATCH + "/hist.log"]
+    files = [WATCH + "/inc/a.txt", WATCH + "/inc/b", WATCH + "/d/c.tar.gz", WATCH + "/n", WATCH + "/hist.log", WATCH + "/hd/proj2/f.c"]
     n = 0
     if rng.random() < 0.2:
         # the store is unusable for a while (a stray regular file where its root belongs): the pass must report the
@@ -652,9 +655,11 @@ def gen_copy_case(rng):
 def gen_history_case(rng):
     """C08: appends of any sizes to a history path, passes, restarts"""
     s = Script()
-    setup_world(s, base_cfg(deb=rng.choice([0, 1])))
+    # half of the cases: the history path lies inside a project (history flag and project offset in one entry)
+    inproj = rng.random() < 0.5
+    setup_world(s, base_cfg(deb=rng.choice([0, 1]), history=[WATCH + "/hist.log", WATCH + "/proj/logs"]))
     s.start()
-    H = WATCH + "/hist.log"
+    H = WATCH + ("/proj/logs/a.log" if inproj else "/hist.log")
     s.put(H, "")
     n = 0
     for _ in range(rng.randint(4, 25)):
@@ -673,11 +678,13 @@ def gen_history_case(rng):
     s.tick(2)
     s.timeout()
     s.dump()
-    return s.text(), {}
+    return s.text(), {"history_rels": ["hist.log", "proj/logs/a.log"]}
 
 
 def gen_project_case(rng):
     """C11: writes and deletions at any depth inside projects, non-project files, passes, restarts"""
+    if rng.random() < 0.12:
+        return gen_project_is_root_case(rng)
     s = Script()
     setup_world(s, base_cfg(deb=rng.choice([0, 1, 2])))
     s.start()
@@ -771,6 +778,39 @@ def gen_project_case(rng):
     s.timeout()
     s.dump()
     return s.text(), {}
+
+
+def gen_project_is_root_case(rng):
+    """C11: the project root is the watched directory itself (the common parent of the write roots): the queue entry of
+    the project is shorter than the common parent, relative paths start inside the project"""
+    s = Script()
+    setup_world(s, base_cfg(deb=rng.choice([0, 1])))
+    s.cpl = len(WATCH + "/proj") + 1
+    s.start()
+    s.exec(3, X + "/vim")
+    files = [WATCH + "/proj/README", WATCH + "/proj/src/m.c", WATCH + "/proj/src/deep/x/y.h"]
+    n = 0
+    for _ in range(rng.randint(4, 16)):
+        r = rng.random()
+        f = rng.choice(files)
+        if r < 0.5:
+            n += 1
+            s.put(f, "c%d" % n)
+            s.write(3, f)
+        elif r < 0.65:
+            s.tick(rng.choice([0, 1, 2]))
+        elif r < 0.9:
+            s.dump()
+            s.timeout()
+            s.dump()
+        else:
+            s.restart()
+            s.exec(3, X + "/vim")
+    s.tick(3)
+    s.dump()
+    s.timeout()
+    s.dump()
+    return s.text(), {"wprefix": "/w/proj/"}
 
 
 def gen_journal_case(rng):
